@@ -48,6 +48,9 @@ type WireNil struct {
 	entryFacts   map[*ssa.Function]wfact
 	nilableParam map[*ssa.Parameter]bool
 	changed      bool
+	lookupMiss   map[*ssa.Function]bool // look-ups that can miss: one pointer/interface result, constant nil on some path
+	LookupFns    int
+	LookupSites  int
 
 	Findings []wnFinding
 	Exempt   []string
@@ -594,7 +597,113 @@ func (w *WireNil) maybeNil(v ssa.Value) bool {
 			}
 		}
 	}
+	if w.lookupResult(v) != nil {
+		return true
+	}
 	return false
+}
+
+// lookupResult: v is the result of a call to a look-up of the repository that can miss (it returns the constant
+// nil on some path), possibly converted; the call is returned.
+func (w *WireNil) lookupResult(v ssa.Value) *ssa.Call {
+	for d := 0; d < 4; d++ {
+		switch x := v.(type) {
+		case *ssa.ChangeInterface:
+			v = x.X
+			continue
+		case *ssa.ChangeType:
+			v = x.X
+			continue
+		case *ssa.Call:
+			if x.Call.Signature().Results().Len() != 1 {
+				return nil
+			}
+			for _, c := range w.callees(x) {
+				if w.lookupMiss[c] {
+					return x
+				}
+			}
+		}
+		return nil
+	}
+	return nil
+}
+
+// computeLookupMiss finds the look-ups of the repository that can miss: functions with exactly one result of
+// pointer or interface type (not an error) that return the constant nil on some path, or the result of such a
+// function. Derived from the code on every run; nothing is named.
+func (w *WireNil) computeLookupMiss() {
+	w.lookupMiss = map[*ssa.Function]bool{}
+	var cands []*ssa.Function
+	for _, f := range w.p.RepoFns("model", "spine", "util") {
+		if f.Blocks == nil || f.Signature.Results().Len() != 1 {
+			continue
+		}
+		rt := f.Signature.Results().At(0).Type()
+		if errLike(rt) {
+			continue
+		}
+		switch rt.Underlying().(type) {
+		case *types.Pointer, *types.Interface:
+			cands = append(cands, f)
+		}
+	}
+	var nilVal func(v ssa.Value, d int) bool
+	nilVal = func(v ssa.Value, d int) bool {
+		if d > 4 {
+			return false
+		}
+		switch x := v.(type) {
+		case *ssa.Const:
+			return x.IsNil()
+		case *ssa.Phi:
+			for _, e := range x.Edges {
+				if nilVal(e, d+1) {
+					return true
+				}
+			}
+		case *ssa.ChangeInterface:
+			return nilVal(x.X, d+1)
+		case *ssa.ChangeType:
+			return nilVal(x.X, d+1)
+		case *ssa.MakeInterface:
+			// a typed nil pointer in an interface is not a nil interface
+			return false
+		case *ssa.UnOp:
+			// a result cell spilled because of a defer: any value stored into it
+			if al, ok := x.X.(*ssa.Alloc); ok && x.Op == token.MUL && al.Referrers() != nil {
+				for _, ref := range *al.Referrers() {
+					if st, ok := ref.(*ssa.Store); ok && st.Addr == ssa.Value(al) && nilVal(st.Val, d+1) {
+						return true
+					}
+				}
+			}
+		case *ssa.Call:
+			if x.Call.Signature().Results().Len() == 1 {
+				for _, c := range w.callees(x) {
+					if w.lookupMiss[c] {
+						return true
+					}
+				}
+			}
+		}
+		return false
+	}
+	for changed := true; changed; {
+		changed = false
+		for _, f := range cands {
+			if w.lookupMiss[f] {
+				continue
+			}
+			for _, b := range f.Blocks {
+				if ret, ok := b.Instrs[len(b.Instrs)-1].(*ssa.Return); ok && len(ret.Results) == 1 && nilVal(ret.Results[0], 0) {
+					w.lookupMiss[f] = true
+					changed = true
+				}
+			}
+		}
+	}
+	w.LookupFns = len(w.lookupMiss)
 }
 
 // curStateNil is the getter table of the running analysis (wpath is a free function).
@@ -681,6 +790,7 @@ func RunWireNil(p *Prog, root *ssa.Function, cmdFunctionNonNil bool) *WireNil {
 		}
 	}
 	w.MsgRoots = len(msgRoots)
+	w.computeLookupMiss()
 	var fns []*ssa.Function
 	for f := range w.reach {
 		fns = append(fns, f)
@@ -1037,6 +1147,20 @@ func RunWireNil(p *Prog, root *ssa.Function, cmdFunctionNonNil bool) *WireNil {
 							}
 						}
 					}
+				case *ssa.Call, *ssa.Defer, *ssa.Go:
+					// a method call on the interface value a look-up returned: a miss makes it a nil-interface call
+					cc := x.(ssa.CallInstruction).Common()
+					if cc.IsInvoke() {
+						if lc := w.lookupResult(cc.Value); lc != nil {
+							w.Total++
+							w.LookupSites++
+							if w.factsAt[ins]["nn:"+wpath(cc.Value, 0)] {
+								w.Guarded++
+							} else {
+								w.Findings = append(w.Findings, wnFinding{f, ins, "invoke", "result of " + lookupName(lc)})
+							}
+						}
+					}
 				case *ssa.Panic:
 					w.Total++
 					if panicIsDead(x) {
@@ -1081,6 +1205,16 @@ func RunWireNil(p *Prog, root *ssa.Function, cmdFunctionNonNil bool) *WireNil {
 		return w.Findings[i].Ins.Pos() < w.Findings[j].Ins.Pos()
 	})
 	return w
+}
+
+func lookupName(c *ssa.Call) string {
+	if c.Call.IsInvoke() {
+		return shortType(c.Call.Value.Type()) + "." + c.Call.Method.Name()
+	}
+	if f := c.Call.StaticCallee(); f != nil {
+		return FnName(f)
+	}
+	return "call"
 }
 
 // panicIsDead: the panic sits on the default branch of a type switch over
